@@ -86,6 +86,7 @@ theorem generated_tags_copied :
 
 
 
+
 -- BEGIN PINS (written by bin/mkpins; do not edit by hand)
 /-- the Go functions this property's model and obligations were written against have exactly the
 pinned skeletons (SHA-256 prefix of the atom list) -/
@@ -93,7 +94,7 @@ theorem pinned_skeletons_c10 :
     pinsOk
     [("Components.#decls", "84eddb1c2309452c"),
      ("Components.MapToTags_Run", "639dd3a11150ec10"),
-     ("Scipipe.#decls", "7633eb8a74616d59"),
+     ("Scipipe.#decls", "08e57e98702ecd70"),
      ("Scipipe.FileIP_AddTag", "f8c4aaf3b95c7e7d"),
      ("Scipipe.FileIP_AddTags", "7f98650d842d4c76"),
      ("Scipipe.FileIP_AuditFilePath", "23da9f52635ce6f9"),
